@@ -26,8 +26,10 @@ type c03Case struct {
 	Bad         string // "", "zero-mod-q", "congruent"
 	Sched       SchedSpec
 	PrePerm     []int
-	OtherGlobal bool  `json:",omitempty"` // process-global curve set to the curve this key generation does not use
-	GenPre      []int `json:",omitempty"` // ECDSA: sorted party indices that pass no pre-parameters (the library generates them)
+	ProofMode   string `json:",omitempty"` // ECDSA: "mod" / "fac": only that proof is switched on, "none": neither
+	IDStyle     string `json:",omitempty"` // "", "blank", "shared": free-form id strings of the parties
+	OtherGlobal bool   `json:",omitempty"` // process-global curve set to the curve this key generation does not use
+	GenPre      []int  `json:",omitempty"` // ECDSA: sorted party indices that pass no pre-parameters (the library generates them)
 }
 
 func genC03(edd bool) func(t *rapid.T) c03Case {
@@ -58,6 +60,10 @@ func genC03(edd bool) func(t *rapid.T) c03Case {
 		c.Sched = genSched(t, c.N, schedNoDup)
 		c.PrePerm = rapid.Permutation([]int{0, 1, 2, 3, 4}).Draw(t, "preperm")
 		c.OtherGlobal = rapid.IntRange(0, 2).Draw(t, "otherGlobal") == 0
+		c.IDStyle = rapid.SampledFrom([]string{"", "", "", "blank", "shared"}).Draw(t, "idStyle")
+		if !edd {
+			c.ProofMode = rapid.SampledFrom([]string{"", "", "", "mod", "fac", "none"}).Draw(t, "proofMode")
+		}
 		return c
 	}
 }
@@ -92,7 +98,7 @@ func firstCommittedPoints(net *sim.Net, edd bool) ([][2]*big.Int, error) {
 	return out, nil
 }
 
-func runC03(c c03Case) ev.Outcome {
+func runC03(c c03Case) (out ev.Outcome) {
 	cv := getCurve("secp256k1")
 	if c.EdDSA {
 		cv = getCurve("ed25519")
@@ -101,17 +107,25 @@ func runC03(c c03Case) ev.Outcome {
 	if c.EdDSA {
 		proto = "eddsa"
 	}
-	out := ev.Outcome{Label: fmt.Sprintf("keygen %s n=%d t=%d keys=%s bad=%s sched=%s", proto, c.N, c.T, c.Pattern, c.Bad, c.Sched.Class())}
+	out = ev.Outcome{Label: fmt.Sprintf("keygen %s n=%d t=%d keys=%s bad=%s sched=%s", proto, c.N, c.T, c.Pattern, c.Bad, c.Sched.Class())}
 	out.Nontrivial = !(c.N == 5 && c.T == 2 && c.Pattern == "random256" && c.Sched.Kind == "fifo")
 	fail := func(sig, f string, a ...interface{}) ev.Outcome {
 		out.Err, out.Sig = fmt.Errorf(f, a...), sig
 		return out
 	}
 	setGlobalCurve(c.EdDSA, c.OtherGlobal)
+	sim.IDStyle = c.IDStyle
+	if c.IDStyle != "" {
+		defer func() { out.Label += " id-strings=" + c.IDStyle }()
+	}
 	if c.OtherGlobal {
 		out.Label += " global-curve=other"
 	}
 	cfg := sim.KeygenCfg{EdDSA: c.EdDSA, Keys: bigs(c.Keys), T: c.T}
+	if c.ProofMode != "" {
+		cfg.NoProofMod, cfg.NoProofFac = c.ProofMode != "mod", c.ProofMode != "fac"
+		out.Label += " only-proof=" + c.ProofMode
+	}
 	if !c.EdDSA {
 		pre := preParams()
 		for i := 0; i < c.N; i++ {
